@@ -19,7 +19,7 @@ def pick(ctx, q, t):
     return q if ctx.quick else t
 
 
-PARSE_KINDS_TREE = {'tree-mismatch', 'accepted-invalid', 'rejected-valid', 'panic', 'opts-mismatch', 'timeout'}
+PARSE_KINDS_TREE = {'tree-mismatch', 'accepted-invalid', 'rejected-valid', 'panic', 'opts-mismatch', 'timeout', 'option-in-tree'}
 PARSE_KINDS_ERRTEXT = {'errtext-empty', 'errtext-keyword', 'errtext-word', 'errtext-foreign-quote'}
 
 
@@ -174,7 +174,7 @@ def c14(ctx):
     clen = pick(ctx, 4, 5)
     g_parse(ctx, acc, 'c14chars', 'MC_C14', 'CONSTANT MaxLen = %d\nCONSTANT Mode = "chars"\n' % clen + base, PARSE_KINDS_TREE)
     plen = pick(ctx, 2, 3)
-    g_parse(ctx, acc, 'c14pieces', 'MC_C14', 'CONSTANT MaxLen = %d\nCONSTANT Mode = "pieces"\n' % plen + base + 'INVARIANT EmitSweep\n', PARSE_KINDS_TREE)
+    g_parse(ctx, acc, 'c14pieces', 'MC_C14', 'CONSTANT MaxLen = %d\nCONSTANT Mode = "pieces"\n' % plen + base + 'INVARIANT EmitSweep\nINVARIANT EmitBraceEdits\nINVARIANT EmitCtl\n', PARSE_KINDS_TREE)
     # random strings up to length 60 (random behaviours of the same machine)
     g_parse(ctx, acc, 'c14sim', 'MC_C14', 'CONSTANT MaxLen = 60\nCONSTANT Mode = "chars"\n' + base, PARSE_KINDS_TREE,
             extra=['-simulate', 'num=%d' % pick(ctx, 150, 3000), '-depth', '61', '-seed', str(ctx.seed)], workers=1)
@@ -197,7 +197,7 @@ def cfg(consts, invs):
 def c05(ctx):
     acc = Acc()
     cap = pick(ctx, 8, 60)
-    g_parse(ctx, acc, 'c05g', 'MC_C05', cfg(['MemberCap = %d' % cap, 'Contexts = {1, 2, 3, 4, 5}'], ['EmitVector', 'EmitSweep']), PARSE_KINDS_TREE)
+    g_parse(ctx, acc, 'c05g', 'MC_C05', cfg(['MemberCap = %d' % cap, 'Contexts = {1, 2, 3, 4, 5}'], ['EmitVector', 'EmitSweep', 'EmitForeign']), PARSE_KINDS_TREE)
     t_parse(ctx, acc, 'c05t', ['--mode', 'vocab', '--count', str(pick(ctx, 6000, 60000)), '--seed', str(ctx.seed)], PARSE_KINDS_TREE)
     return result('model_checking', acc, True,
                   'every keyword of Vocab.tla (55) x up to %d members of its (last) argument language x 60 corruptions (junk appended / prefixed / inserted, missing argument, junk glued to the keyword, truncated keyword, keyword glued to argument) x 5 contexts; every printable character once in 26 places where an argument language enumerates letters or digits (type list, who/operator/permission, octal digits, units, signs, keyword tails); plus seeded random primaries with mutated arguments validated by TLC; distinct = inputs with a specified verdict' % cap,
@@ -210,7 +210,7 @@ def c06(ctx):
     acc = Acc()
     inv = ['InvSpecAgrees', 'EmitVector', 'EmitOptionsFront']
     # (the emitters attached to the initial state run once, in the first stage only)
-    g_parse(ctx, acc, 'c06g1', 'MC_C06', cfg(['MaxDev = 1', 'MaskSet = {0, 1, 2, 3}'], inv + ['InvBlank', 'EmitBlank', 'EmitOptionsOnly', 'EmitQuoteSweep']), PARSE_KINDS_TREE)
+    g_parse(ctx, acc, 'c06g1', 'MC_C06', cfg(['MaxDev = 1', 'MaskSet = {0, 1, 2, 3}'], inv + ['InvBlank', 'EmitBlank', 'EmitOptionsOnly', 'EmitQuoteSweep', 'EmitLines', 'EmitLongArgs', 'EmitDeepParens']), PARSE_KINDS_TREE)
     if ctx.quick:
         g_parse(ctx, acc, 'c06g2', 'MC_C06', cfg(['MaxDev = 2', 'MaskSet = {0}'], inv), PARSE_KINDS_TREE)
     else:
@@ -250,7 +250,7 @@ def c13_front(ctx, acc):
 # =========================================================================== C18
 def c18(ctx):
     acc = Acc()
-    g_parse(ctx, acc, 'c18arg', 'MC_C18', cfg(['Mode = "arg"'], ['EmitVector', 'InvAttributable']), PARSE_KINDS_ERRTEXT)
+    g_parse(ctx, acc, 'c18arg', 'MC_C18', cfg(['Mode = "arg"'], ['EmitVector', 'InvAttributable', 'EmitLong']), PARSE_KINDS_ERRTEXT)
     g_parse(ctx, acc, 'c18unk', 'MC_C18', cfg(['Mode = "unknown"'], ['EmitVector']), PARSE_KINDS_ERRTEXT)
     # the C05 corpus is full of rejected inputs: its error texts are checked too
     g_parse(ctx, acc, 'c18voc', 'MC_C05', cfg(['MemberCap = %d' % pick(ctx, 3, 20), 'Contexts = {1, 2, 4}'], ['EmitVector']), PARSE_KINDS_ERRTEXT)
@@ -391,10 +391,14 @@ def c02(ctx):
     acc = Acc()
     design_check(ctx, acc, 'mix', pick(ctx, 2, 3))
     gt_sem(ctx, acc, 'c02single', 'single', 1, SEM_KINDS)
+    # the same primaries WRITTEN AS TEXT: the real parser reads them, the program is judged against the tree the
+    # specification gives for the text (a parser that changes the meaning of an argument is invisible to trees built
+    # through the constructors)
+    gt_sem(ctx, acc, 'c02texts', 'texts2', pick(ctx, 2, 15), SEM_KINDS | {'refused-supported', 'accepted-unsupported'}, emit=('EmitTree', 'EmitTexts2'))
     gt_sem(ctx, acc, 'c02ops', 'ops', pick(ctx, 3, 4), SEM_KINDS, extra_rec=['--warmup'])
     gt_sem(ctx, acc, 'c02pairs', 'pairs', 2, SEM_KINDS, consts='CONSTANT MaxFiles = 60\nCONSTANT Static = FALSE\n')
     t_sem(ctx, acc, 'c02rand', ['--count', str(pick(ctx, 500, 20000)), '--seed', str(ctx.seed), '--size', '12', '--no-direct'], SEM_KINDS)
-    return tv_result(acc, 'every supported primary alone with every generated member of its argument language plus 50 boundary-rich arguments; all trees up to %d nodes over 8 representative primaries and not/and/or/list; seeded random trees up to 12 nodes over the full supported vocabulary; each program executed on the directed files of Backend.tla DirectedFiles (3 base files + every leaf variant around each)' % pick(ctx, 3, 4), [])
+    return tv_result(acc, 'every supported primary alone with every generated member of its argument language plus 50 boundary-rich arguments, as trees and WRITTEN AS TEXT (read by the real parser, judged against the tree the specification gives for the text); all trees up to %d nodes over 8 representative primaries and not/and/or/list; seeded random trees up to 12 nodes over the full supported vocabulary; each program executed on the directed files of Backend.tla DirectedFiles (3 base files + every leaf variant around each)' % pick(ctx, 3, 4), [])
 
 
 def c09(ctx):
@@ -402,8 +406,9 @@ def c09(ctx):
     design_check(ctx, acc, 'c09', pick(ctx, 3, 4))
     gt_sem(ctx, acc, 'c09trees', 'c09', pick(ctx, 3, 5), SEM_KINDS)
     gt_sem(ctx, acc, 'c09pairs', 'pairacts', 1, SEM_KINDS, consts='CONSTANT MaxFiles = 60\nCONSTANT Static = FALSE\n')
+    t_sem(ctx, acc, 'c09spine', ['--profile', 'spine', '--no-warmup'] + (['--few'] if ctx.quick else []), SEM_KINDS, consts='CONSTANT MaxFiles = 4\nCONSTANT Static = FALSE\n')
     t_sem(ctx, acc, 'c09rand', ['--count', str(pick(ctx, 300, 15000)), '--seed', str(ctx.seed), '--size', '10', '--profile', 'c09'], SEM_KINDS)
-    return tv_result(acc, 'all trees up to %d nodes over {true, false, a name test, print, quit, a file print} and not/and/or/list (exhaustive), plus seeded random trees up to 10 nodes over the same leaves; outputs on files that make the name test true and false compared with FindSem.tla SemTop (implicit -print iff no action node anywhere)' % pick(ctx, 3, 5), [])
+    return tv_result(acc, 'all trees up to %d nodes over {true, false, a name test, print, quit, a file print} and not/and/or/list (exhaustive), plus seeded random trees up to 10 nodes over the same leaves, plus DEEP trees (right-nested groups, rule lists, AND chains, negation chains of 40..240 levels with the only action at the bottom / in front / absent); outputs on files that make the name test true and false compared with FindSem.tla SemTop (implicit -print iff no action node anywhere)' % pick(ctx, 3, 5), [])
 
 
 def c10(ctx):
@@ -411,9 +416,10 @@ def c10(ctx):
     gt_sem(ctx, acc, 'c10acts', 'acts', pick(ctx, 2, 3), ROUTE_KINDS)
     t_sem(ctx, acc, 'c10rand', ['--count', str(pick(ctx, 200, 10000)), '--seed', str(ctx.seed), '--size', '9', '--profile', 'actions'], ROUTE_KINDS)
     t_sem(ctx, acc, 'c10affix', ['--profile', 'affix', '--no-warmup'], ROUTE_KINDS, consts='CONSTANT MaxFiles = 4\nCONSTANT Static = FALSE\n')
+    t_sem(ctx, acc, 'c10spine', ['--profile', 'spine', '--no-warmup'] + (['--few'] if ctx.quick else []), ROUTE_KINDS, consts='CONSTANT MaxFiles = 4\nCONSTANT Static = FALSE\n')
     t_sem(ctx, acc, 'c10mid', ['--count', str(pick(ctx, 40, 400)), '--seed', str(ctx.seed + 3), '--profile', 'chain', '--size', '30'], ROUTE_KINDS, consts='CONSTANT MaxFiles = 3\nCONSTANT Static = FALSE\n')
     t_sem(ctx, acc, 'c10chain', ['--count', str(pick(ctx, 4, 40)), '--seed', str(ctx.seed), '--profile', 'chain', '--size', '300'], ROUTE_KINDS, consts='CONSTANT MaxFiles = %d\nCONSTANT Static = FALSE\n' % pick(ctx, 3, 8))
-    return tv_result(acc, 'all multisets of up to %d actions from 12 action kinds (stdout/file x newline/NUL/format, file names from a pool of 3, print-file-fid, quit) as AND chain, OR chain and mixed; seeded random operator trees rich in actions; chains with up to 300 resources (destinations and matchers); checked: framed iff NeedsFramed, plain => no table, injective table equal to the required targets, stream decodes into frames whose routed records equal FindSem outputs' % pick(ctx, 2, 3), [])
+    return tv_result(acc, 'all multisets of up to %d actions from 12 action kinds (stdout/file x newline/NUL/format, file names from a pool of 3, print-file-fid, quit) as AND chain, OR chain and mixed; seeded random operator trees rich in actions; deep trees (40..240 levels) whose only frame-needing action sits at the bottom or in the first rule; chains with up to 300 resources (destinations and matchers); checked: framed iff NeedsFramed, plain => no table, injective table equal to the required targets, stream decodes into frames whose routed records equal FindSem outputs' % pick(ctx, 2, 3), [])
 
 
 def c12(ctx):
@@ -661,12 +667,21 @@ def c16(ctx):
     bigrecs = [json.loads(l) for l in open(big) if l.startswith('{')]
     if rp.returncode != 0 or len(bigrecs) != 2:
         raise ctx.t.ToolError('big program generation failed: ' + rp.stderr[-400:])
+    # DEEP programs (rule lists and AND chains of 48..240 members whose first action alone decides the output mode)
+    spine = '%s/c16spine.ndjson' % ctx.work
+    wd = ctx.t.record(['record-compile', '--profile', 'spine16', '--no-warmup'] + (['--few'] if ctx.quick else []), spine)
+    for f in wd:
+        f['stage'] = 'c16spine'
+        acc.failures.append(f)
+    spinerecs = [json.loads(l) for l in open(spine) if l.startswith('{') and '"st":"ok"' in l]
+    with open(spine, 'w') as f:
+        f.writelines(json.dumps(r) + '\n' for r in spinerecs)
     nsmall = len(recs)
-    runs = [(trace, recs, nt, calls) for (nt, calls) in configs] + [(big, bigrecs, 2, 1)]
+    runs = [(trace, recs, nt, calls) for (nt, calls) in configs] + [(big, bigrecs, 2, 1), (spine, spinerecs, 2, 1)]
     for (trace, recs, nt, calls) in runs:
         text = ('CONSTANT NThreads = %d\nCONSTANT Calls = %d\nSPECIFICATION Spec\nINVARIANT InvNoBadRelease\nINVARIANT InvWholeRecords\n'
                 'INVARIANT InvPrints\nPROPERTY Live\nCHECK_DEADLOCK TRUE\n') % (nt, calls)
-        name = 'c16scan_%dx%d%s' % (nt, calls, '_big' if trace == big else '')
+        name = 'c16scan_%dx%d%s' % (nt, calls, '_big' if trace == big else '_spine' if trace == spine else '')
         cmdl = ctx.t.tlc_cmd(name, 'MC_Scan', text, workers=16)
         env = dict(os.environ, TRACE=trace)
         t0 = __import__('time').time()
@@ -692,9 +707,9 @@ def c16(ctx):
             acc.failures.append(bad)
         elif st['errors']:
             raise ctx.t.ToolError('TLC reported: ' + ' | '.join(st['errors'][:3]))
-    acc.distinct = nsmall + 2
-    acc.programs = nsmall + 2
-    return tv_result(acc, 'AND chains of 1..%d printing actions (9 kinds: stdout/file x newline/NUL/format) plus the implicit print, plus two programs with 130 matchers in front of two printers (more than 255 generated identifiers); for each recorded program the atomic steps of a policy call (lock, write, unlock) are extracted from the real text by SchemeEval; TLC explores every interleaving of %s; checked in every state: no release of an unheld mutex; in every terminal state: ports split into whole records (framed: complete frames with the emitted multiset; plain: concatenation of whole critical-section records); no deadlock; <>AllDone under weak fairness' % (pick(ctx, 2, 3), ', '.join('%d threads x %d calls' % c for c in configs)),
+    acc.distinct = nsmall + 2 + len(spinerecs)
+    acc.programs = nsmall + 2 + len(spinerecs)
+    return tv_result(acc, 'AND chains of 1..%d printing actions (9 kinds: stdout/file x newline/NUL/format) plus the implicit print, plus two programs with 130 matchers in front of two printers (more than 255 generated identifiers), plus rule lists and AND chains of 48..240 members whose first action alone decides the output mode; for each recorded program the atomic steps of a policy call (lock, write, unlock) are extracted from the real text by SchemeEval; TLC explores every interleaving of %s; checked in every state: no release of an unheld mutex; in every terminal state: ports split into whole records (framed: complete frames with the emitted multiset; plain: concatenation of whole critical-section records); no deadlock; <>AllDone under weak fairness' % (pick(ctx, 2, 3), ', '.join('%d threads x %d calls' % c for c in configs)),
                      ['direct runtime prints (print-relative-path, print-file-fid) are modelled as one atomic write; mixing them with printer output in plain mode is outside what can be decided without the runtime source'], level='model_checking')
 
 def api_validate(ctx, acc, name, trace, kinds, timeout=3000):
